@@ -26,28 +26,85 @@ def module_containers(mi):
     return out
 
 
+def _container_of(p, mi, expr):
+    """(module name, container name) when `expr` names a module-level container - of this module, imported from another
+    package module (`from m import X`), or reached as `module.X` - else None"""
+    if isinstance(expr, ast.Name):
+        r = p.resolve_name(mi, expr.id)
+        if isinstance(r, tuple) and r and r[0] == 'assign' and r[2] in module_containers(r[1]):
+            return (r[1].name, r[2])
+    if isinstance(expr, ast.Attribute) and isinstance(expr.value, ast.Name):
+        r = p.resolve_name(mi, expr.value.id)
+        if hasattr(r, 'assigns') and expr.attr in module_containers(r):
+            return (r.name, expr.attr)
+    return None
+
+
 def mutated_module_containers(p):
-    """{(module name, container name)} for module-level containers that some package function mutates."""
+    """{(module name, container name)} for module-level containers that some package function mutates - directly, through
+    `module.X`, through an imported name, or through a local alias (`allowed = TABLE; allowed += [...]` extends TABLE in
+    place: augmented assignment on a list / set / dict mutates the object every other name refers to)."""
     out = {}
     for fi in p.functions.values():
-        conts = module_containers(fi.module)
-        for ci in fi.module.classes.values():
-            conts |= {nm for nm, node in ci.attrs.items() if isinstance(node, (ast.List, ast.Dict, ast.Set))}
-        local = {n.id for n in ast.walk(fi.node) if isinstance(n, ast.Name) and isinstance(n.ctx, ast.Store)} | set(fi.params)
+        mi = fi.module
+        conts = module_containers(mi)
+        cls_conts = set()
+        for ci in mi.classes.values():
+            cls_conts |= {nm for nm, node in ci.attrs.items() if isinstance(node, (ast.List, ast.Dict, ast.Set))}
+        stores = {}
         for n in ast.walk(fi.node):
-            name = None
+            if isinstance(n, ast.Name) and isinstance(n.ctx, ast.Store):
+                stores.setdefault(n.id, 0)
+                stores[n.id] += 1
+        local = set(stores) | set(fi.params)
+        declared_global = {nm for n in ast.walk(fi.node) if isinstance(n, (ast.Global, ast.Nonlocal)) for nm in n.names}
+        # local aliases of module-level containers: `a = TABLE` / `a = module.TABLE` (any such binding makes `a` a may-alias)
+        alias = {}
+        for n in ast.walk(fi.node):
+            if isinstance(n, (ast.Assign, ast.AnnAssign)) and n.value is not None:
+                tgts = n.targets if isinstance(n, ast.Assign) else [n.target]
+                c = _container_of(p, mi, n.value)
+                if c is not None and not (isinstance(n.value, ast.Name) and n.value.id in local and n.value.id not in declared_global):
+                    for t in tgts:
+                        if isinstance(t, ast.Name):
+                            alias[t.id] = c
+
+        def target_of(expr):
+            """the module-level container an expression denotes inside this function"""
+            if isinstance(expr, ast.Name):
+                if expr.id in alias:
+                    return alias[expr.id]
+                if expr.id in local and expr.id not in declared_global:
+                    return None
+                if expr.id in cls_conts:
+                    return (mi.name, expr.id)
+                return _container_of(p, mi, expr)
+            if isinstance(expr, ast.Attribute) and isinstance(expr.value, ast.Name) and expr.value.id in ('cls', 'self') \
+                    and expr.attr in cls_conts:
+                return (mi.name, expr.attr)
+            if isinstance(expr, ast.Attribute):
+                return _container_of(p, mi, expr)
+            return None
+        for n in ast.walk(fi.node):
+            hit = None
             if isinstance(n, ast.Call) and isinstance(n.func, ast.Attribute) and n.func.attr in MUTATORS:
-                base = n.func.value
-                if isinstance(base, ast.Name):
-                    name = base.id
-                elif isinstance(base, ast.Attribute) and isinstance(base.value, ast.Name) and base.value.id == 'cls':
-                    name = base.attr
-            if isinstance(n, (ast.Assign, ast.AugAssign, ast.Delete)):
-                for t in (n.targets if isinstance(n, (ast.Assign, ast.Delete)) else [n.target]):
-                    if isinstance(t, ast.Subscript) and isinstance(t.value, ast.Name):
-                        name = t.value.id
-            if name and name in conts and name not in local:
-                out.setdefault((fi.module.name, name), []).append((fi, n.lineno))
+                hit = target_of(n.func.value)
+            if isinstance(n, (ast.Assign, ast.Delete)):
+                for t in n.targets:
+                    if isinstance(t, ast.Subscript):
+                        hit = hit or target_of(t.value)
+            if isinstance(n, ast.AugAssign):
+                if isinstance(n.target, ast.Subscript):
+                    hit = target_of(n.target.value)
+                elif isinstance(n.target, ast.Name) and n.target.id in alias:
+                    # in-place operator on an alias of the shared object
+                    hit = alias[n.target.id]
+                elif isinstance(n.target, ast.Name) and n.target.id in declared_global:
+                    hit = target_of(ast.Name(id=n.target.id, ctx=ast.Load()))
+                elif isinstance(n.target, ast.Attribute):
+                    hit = target_of(n.target)
+            if hit is not None:
+                out.setdefault(hit, []).append((fi, n.lineno))
     return out
 
 
@@ -134,9 +191,19 @@ def check_purity(ctx, pid, consulted):
                 txt = ast.unparse(d)
                 verdict = _decorator_state(p, fi, d)
                 if verdict == 'stateful':
-                    ob.require(False, '%s is wrapped by @%s, whose wrapper keeps state between calls (it stores into / reads from an '
-                               'object that outlives the call): the result for given arguments can be what an earlier call stored'
-                               % (key, txt), '%s:%d' % (fi.module.relpath, d.lineno))
+                    # a wrapper that keeps state: acceptable exactly when no API result of the class depends on that state
+                    # (semantic history check of C13: every call after every state-changing call equals the fresh call)
+                    from .C13 import history_verdict
+                    hv, detail = history_verdict(p, fi.cls.qual) if fi.cls is not None else (None, 'a module-level function')
+                    if hv is True:
+                        ob.evaluations += 1
+                        ob.note('%s is wrapped by @%s, which keeps state; the semantic history check shows every result independent of it' % (key, txt))
+                    elif hv is False:
+                        ob.require(False, '%s is wrapped by @%s, whose wrapper keeps state between calls, and a result depends on it: %s'
+                                   % (key, txt, detail[:400]), '%s:%d' % (fi.module.relpath, d.lineno))
+                    else:
+                        ob.undecided('%s is wrapped by @%s, whose wrapper keeps state between calls; whether results depend on it '
+                                     'could not be decided (%s)' % (key, txt, detail[:200]), '%s:%d' % (fi.module.relpath, d.lineno))
                     continue
                 if verdict == 'unknown':
                     ob.undecided('%s is wrapped by @%s, a decorator this analysis cannot see through: the analysed body is not what '
@@ -150,10 +217,13 @@ def check_purity(ctx, pid, consulted):
                 if isinstance(n, (ast.Global, ast.Nonlocal)):
                     ob.require(False, '%s declares %s: it depends on or changes module-level state' % (key, ast.unparse(n)),
                                '%s:%d' % (fi.module.relpath, n.lineno))
-                if isinstance(n, ast.Name) and isinstance(n.ctx, ast.Load) and (fi.module.name, n.id) in mutated:
-                    sites = mutated[(fi.module.name, n.id)]
+                c = _container_of(p, fi.module, n) if isinstance(n, (ast.Name, ast.Attribute)) and isinstance(n.ctx, ast.Load) else None
+                if c is None and isinstance(n, ast.Name) and isinstance(n.ctx, ast.Load) and (fi.module.name, n.id) in mutated:
+                    c = (fi.module.name, n.id)
+                if c is not None and c in mutated:
+                    sites = mutated[c]
                     ob.require(False, '%s uses the module-level container %s, which is mutated at run time (%s): the result depends '
                                'on earlier calls (a cache/registry), not only on the arguments' % (
-                                   key, n.id, ', '.join('%s:%d' % (f.qual[len(PKG) + 1:], ln) for f, ln in sites[:3])),
+                                   key, '%s.%s' % c, ', '.join('%s:%d' % (f.qual[len(PKG) + 1:], ln) for f, ln in sites[:3])),
                                '%s:%d' % (fi.module.relpath, n.lineno))
                     break
